@@ -58,7 +58,10 @@ func migSiblings(pkg string) (legacy, fresh map[string]string) {
 	z.WriteString("\t// +govalid:required\n")
 	zn.WriteString("\t//govalid:required\n")
 	both(&z, &zn, "\tZ string\n}\n")
-	return map[string]string{"a_first.go": a.String(), "z_last.go": z.String()}, map[string]string{"a_first.go": an.String(), "z_last.go": zn.String()}
+	// a HAND-WRITTEN file whose name ends like the generator's output files
+	hv := "package " + pkg + "\n\ntype HandWritten struct {\n\t// +govalid:required\n\tH string\n\n\t  // +govalid:maxlength=7\n\tI string\n}"
+	hvn := "package " + pkg + "\n\ntype HandWritten struct {\n\t//govalid:required\n\tH string\n\n\t  //govalid:maxlength=7\n\tI string\n}"
+	return map[string]string{"a_first.go": a.String(), "z_last.go": z.String(), "hand_validator.go": hv}, map[string]string{"a_first.go": an.String(), "z_last.go": zn.String(), "hand_validator.go": hvn}
 }
 
 var migStructFields = []string{"A string", "B int", "C []string", "D float64", "E map[string]int"}
@@ -99,6 +102,9 @@ func genMigFile(rng *rand.Rand, pkg string) (legacy, fresh string) {
 			w(" * x" + nl)
 		}
 		w("// +govalid:gt=1 */ // +govalid:tail" + nl + nl)
+	}
+	if rng.Intn(6) == 0 {
+		w("//line gen.go:" + strconv.Itoa(1+rng.Intn(500)) + nl)
 	}
 	if rng.Intn(3) == 0 {
 		w("var lookalike = \"// +govalid:required\" // +govalid:not-a-doc-comment" + nl + nl)
@@ -226,6 +232,12 @@ func migCorpus(pkg string) [][2]string {
 		// CRLF file with a LONG block comment (30 and 70 lines) whose last line is a look-alike that closes the comment and is
 		// followed by a trailing legacy-looking comment: nothing on that line is a marker; the real marker below is
 		longBlock(pkg, 30, "\r\n"), longBlock(pkg, 70, "\r\n"), longBlock(pkg, 30, "\n"), longBlock(pkg, 16, "\r\n"),
+		// //line directives (generated or pre-processed sources): positions reported by the scanner are then ADJUSTED — the real
+		// line and column of a marker must be used
+		{h + "//line other.go:100\n" + t("\t// +govalid:required\n\tA string\n") + "\n//line other.go:1:40\n" + strings.Replace(t("\t// +govalid:gt=1\n\tB int\n"), "type T", "type U", 1),
+			h + "//line other.go:100\n" + t("\t//govalid:required\n\tA string\n") + "\n//line other.go:1:40\n" + strings.Replace(t("\t//govalid:gt=1\n\tB int\n"), "type T", "type U", 1)},
+		{h + "/*line x.go:7:1*/ var q = 1\n\n" + t("\t// +govalid:required\n\tA string\n"),
+			h + "/*line x.go:7:1*/ var q = 1\n\n" + t("\t//govalid:required\n\tA string\n")},
 		// nested anonymous struct with markers at two indentation depths, spaces and tabs mixed
 		{h + t("\t// +govalid:required\n\tIn struct {\n\t\t  // +govalid:minlength=2\n\t\tA string\n\t}\n"),
 			h + t("\t//govalid:required\n\tIn struct {\n\t\t  //govalid:minlength=2\n\t\tA string\n\t}\n")},
@@ -280,6 +292,9 @@ func validatorDigest(dir string) string {
 	ms, _ := filepath.Glob(filepath.Join(dir, "*_validator.go"))
 	var sb strings.Builder
 	for _, m := range ms {
+		if filepath.Base(m) == "hand_validator.go" {
+			continue // a hand-written source file of the sibling set, not generator output
+		}
 		b, _ := os.ReadFile(m)
 		sb.WriteString(filepath.Base(m) + ":" + hex.EncodeToString(b) + ";")
 	}
@@ -364,7 +379,7 @@ func migMain(args []string) {
 			row.DryCount, _ = strconv.Atoi(m[1])
 		}
 		if sibLegacy != nil {
-			row.DryCount -= 161 // the announced total covers the sibling files too: 160 markers in a_first.go, one in z_last.go
+			row.DryCount -= 163 // the announced total covers the sibling files too: 160 markers in a_first.go, one in z_last.go, two in hand_validator.go
 		}
 		b, _ := os.ReadFile(src)
 		row.DryChanged = string(b) != legacy
